@@ -49,7 +49,7 @@ def with_negative(w, delta):
     return w
 
 
-def build(case, rs, frame_kind, required=False):
+def build(case, rs, frame_kind, required=False, eqdir="I"):
     """returns (constructor thunk, description).  The thunk builds the library object."""
     from quara.objects.state import State
     from quara.objects.povm import Povm
@@ -103,8 +103,15 @@ def build(case, rs, frame_kind, required=False):
             tau_elem = x1                   # equality deviation goes to an element without the negative eigenvalue
         else:
             tau_elem = m - 1
-        E[tau_elem, :] += tau               # + tau * identity
-        vecs = [spectral.vec_of(shape, (U * E[x]) @ U.conj().T) for x in range(m)]
+        mats = [(U * E[x]) @ U.conj().T for x in range(m)]
+        # the equality deviation: tau times a Hermitian matrix whose largest entry is one - the identity, or a real symmetric
+        # / a purely imaginary antisymmetric off-diagonal unit (computational basis, entries of modulus tau either way)
+        D = np.eye(d, dtype=np.complex128)
+        if eqdir != "I":
+            D = np.zeros((d, d), dtype=np.complex128)
+            D[0, d - 1], D[d - 1, 0] = (1.0, 1.0) if eqdir == "X" else (-1j, 1j)
+        mats[tau_elem] = mats[tau_elem] + tau * D
+        vecs = [spectral.vec_of(shape, M) for M in mats]
         return lambda: Povm(c, [v.copy() for v in vecs], is_physicality_required=required)
     # gate / mprocess: Weyl-diagonal maps in a local frame; Choi spectrum = d * weights
     W = spectral.local_frame(frame_kind, sys, rs)
@@ -235,11 +242,15 @@ def run(chk):
             # the equality defect of a gate / measurement process (one first-row entry) perturbs the Choi
             # spectrum too: with a defect present only the equality verdict is asserted for these types
             eq_only = ty in ("gate", "mprocess") and o["eqDev"]["m"] != 0
+            # POVMs: the sum may miss the identity in any direction; off-diagonal directions also move the spectrum of the element
+            # that carries them, so only the equality verdict is asserted for those
+            eqdir = ("I", "X", "Y")[n % 3] if (ty == "povm" and o["eqDev"]["m"] != 0 and o["class"] != "faint") else "I"
+            eq_only = eq_only or eqdir != "I"
             key = "%s:%s:%s" % (ty, o["shape"], o["class"])
             devk = "eq%se%d:neg%se%d:k%d" % (o["eqDev"]["m"], o["eqDev"]["e"] - k if o["eqDev"]["m"] else 0,
                                              o["negDev"]["m"], o["negDev"]["e"] - k if o["negDev"]["m"] else 0, k)
             try:
-                obj = build(case, np.random.RandomState(rs.randint(2 ** 31)), fk)()
+                obj = build(case, np.random.RandomState(rs.randint(2 ** 31)), fk, eqdir=eqdir)()
             except Exception as e:
                 chk.violation("build:%s" % key, "object could not be built without physicality requirement: %r" % e, case)
                 continue
@@ -285,7 +296,7 @@ def run(chk):
                 # construction with physicality required succeeds exactly for physical objects
                 if not eq_only:
                     try:
-                        build(case, np.random.RandomState(7), fk, required=True)()
+                        build(case, np.random.RandomState(7), fk, required=True, eqdir=eqdir)()
                         outcome = "ok"
                     except ValueError:
                         outcome = "raise"
